@@ -121,14 +121,54 @@ static void vtmf_game(const Args &A, bool qr_group, unsigned long fsize, unsigne
 			if (rec) Rec("vt_decshare").z(p).z(c.c_1).z(P[opener].vtmf->x_i).t(hx(P[opener].vtmf->d));
 			std::string others, cont;
 			mpz_set_ui(Xm, 0);
-			bool proto_ok = true;
+			bool proto_ok = true, bad_offered = false;
 			for (size_t j = 0; j < k; j++) if (j != opener) {
 				others += (others.empty() ? "" : ",") + hx(P[j].vtmf->x_i);
 				if (!contrib[j]) { mpz_add(Xm, Xm, P[j].vtmf->x_i); continue; }
 				cont += (cont.empty() ? "" : ",") + hx(P[j].vtmf->x_i);
 				std::stringstream proof, dummy_in, dummy_out;
 				P[j].tmcg->TMCG_ProveCardSecret(c, P[j].vtmf, dummy_in, proof);
-				if (!P[opener].tmcg->TMCG_VerifyCardSecret(c, P[opener].vtmf, proof, dummy_out)) proto_ok = false;
+				// the honest message: d_j, fingerprint of h_j, and the proof (c, r)
+				mpz_t tk[4], dbefore; for (int i = 0; i < 4; i++) mpz_init(tk[i]); mpz_init(dbefore);
+				{ std::istringstream ps(proof.str()); ps >> tk[0] >> tk[1] >> tk[2] >> tk[3]; }
+				// before the correct share: zero or more shares that must be rejected and must leave d untouched
+				unsigned nbad = (pass == 0) ? gen().below(3) : 0;
+				for (unsigned bno = 0; bno < nbad; bno++) {
+					std::stringstream bad, bout; std::string kind;
+					mpz_t m[4]; for (int i = 0; i < 4; i++) mpz_init_set(m[i], tk[i]);
+					switch (gen().below(7)) {
+					case 0: { // share and valid proof of the same player for a different card
+						kind = "other-card"; VTMF_Card oc; VTMF_CardSecret ocs;
+						P[j].tmcg->TMCG_CreatePrivateCard(oc, ocs, P[j].vtmf, gen().below(maxtype));
+						if (mpz_cmp(oc.c_1, c.c_1) == 0) { kind = ""; break; }
+						std::stringstream di; P[j].tmcg->TMCG_ProveCardSecret(oc, P[j].vtmf, di, bad);
+						std::istringstream ps(bad.str()); ps >> m[0]; bad.clear(); break; }
+					case 1: kind = "proof-r+1"; mpz_add_ui(m[3], m[3], 1); if (mpz_cmpabs(m[3], q) >= 0) mpz_sub_ui(m[3], m[3], 2); break;
+					case 2: kind = "proof-c+1"; mpz_add_ui(m[2], m[2], 1); break;
+					case 3: kind = "r-out-of-range"; mpz_add(m[3], m[3], q); break;
+					case 4: kind = "share-out-of-range"; mpz_add(m[0], m[0], p); break;
+					case 5: kind = "unknown-key"; mpz_add_ui(m[1], m[1], 1); break;
+					case 6: kind = "share-of-another-player"; { size_t o2 = gen().below(k); if (o2 == j || o2 == opener) { kind = ""; break; }
+						std::stringstream di, pr; P[o2].tmcg->TMCG_ProveCardSecret(c, P[o2].vtmf, di, pr); std::istringstream ps(pr.str()); ps >> m[0];
+						if (mpz_cmp(m[0], tk[0]) == 0) kind = ""; /* e.g. c_1 = 1: all shares coincide, the statement is true */ } break;   // foreign share under j's key and proof
+					}
+					if (!kind.empty()) {
+						if (kind != "other-card") bad << m[0] << std::endl << m[1] << std::endl << m[2] << std::endl << m[3] << std::endl;
+						mpz_set(dbefore, P[opener].vtmf->d);
+						bool ret = gen().coin() ? P[opener].tmcg->TMCG_VerifyCardSecret(c, P[opener].vtmf, bad, bout)
+						                        : P[opener].vtmf->VerifiableDecryptionProtocol_Verify_Update(c.c_1, bad);
+						if (rec) Rec("vt_update").z(p).z(dbefore).z(m[0]).d(ret ? 1 : 0).t(std::string(ret ? "1," : "0,") + hx(P[opener].vtmf->d));
+						bad_offered = true;
+						if (ret) propfail("rejected-share-accepted-" + key, "a bad decryption share (" + kind + ") was accepted: p=" + zs(p) + " q=" + zs(q) + " g=" + zs(g) + " c1=" + zs(c.c_1) + " d_j=" + hx(m[0]));
+						else if (mpz_cmp(dbefore, P[opener].vtmf->d)) propfail("open-after-rejected-share", "a rejected decryption share (" + kind + ") changed the accumulated value d: p=" + zs(p) + " q=" + zs(q) + " g=" + zs(g) + " c1=" + zs(c.c_1) + " d=" + hx(dbefore) + " -> " + hx(P[opener].vtmf->d) + " d_j=" + hx(m[0]));
+					}
+					for (int i = 0; i < 4; i++) mpz_clear(m[i]);
+				}
+				mpz_set(dbefore, P[opener].vtmf->d);
+				bool good = P[opener].tmcg->TMCG_VerifyCardSecret(c, P[opener].vtmf, proof, dummy_out);
+				if (rec) Rec("vt_update").z(p).z(dbefore).z(tk[0]).d(good ? 1 : 0).t(std::string(good ? "1," : "0,") + hx(P[opener].vtmf->d));
+				if (!good) proto_ok = false;
+				for (int i = 0; i < 4; i++) mpz_clear(tk[i]); mpz_clear(dbefore);
 			}
 			if (!proto_ok) { propfail("vtmf-decproof-" + key, "honest decryption share rejected: p=" + zs(p) + " q=" + zs(q) + " g=" + zs(g) + " c1=" + zs(c.c_1)); continue; }
 			mpz_t d, m; mpz_init_set(d, P[opener].vtmf->d); mpz_init(m);
@@ -145,7 +185,8 @@ static void vtmf_game(const Args &A, bool qr_group, unsigned long fsize, unsigne
 			size_t expect = (mpz_cmp_ui(E, maxtype) < 0) ? mpz_get_ui(E) : maxtype;
 			std::string what = "p=" + zs(p) + " q=" + zs(q) + " g=" + zs(g) + " k=" + std::to_string(k) + " w=" + std::to_string(w) + " T=" + std::to_string(T)
 				+ " chain=" + chain + " opener=" + std::to_string(opener) + " opened as " + std::to_string(type);
-			if (pass == 0 && type != T) propfail("vtmf-open-" + key, "card does not open to its type with all shares: " + what);
+			if (pass == 0 && type != T) propfail(bad_offered ? std::string("open-after-rejected-share") : "vtmf-open-" + key,
+				std::string(bad_offered ? "after rejected shares followed by the correct ones the card does not open to its type: " : "card does not open to its type with all shares: ") + what);
 			if (pass == 1 && type != expect) propfail("vtmf-missing-" + key, "opening with a share withheld: expected " + std::to_string(expect) + ": " + what);
 			if (pass == 1 && type == T && mpz_cmp_ui(E, T) != 0) propfail("vtmf-missing-" + key, "opening with a share withheld still returned T: " + what);
 		}
